@@ -1,9 +1,9 @@
 """human-written part of MANIFEST.json"""
 HOOKS = {
-    "guard": "cfg(kani) [+ cargo feature verif-models on routee-compass-core]",
-    "enable": "cargo kani sets cfg(kani) itself; harness crates vh-core/vh-pt depend on routee-compass-core with features=[\"verif-models\"]",
+    "guard": "cfg(kani) (set only by the Kani compiler) together with the default-off cargo features verif-collections / verif-models of routee-compass-core",
+    "enable": "cargo kani sets cfg(kani); harness crates vh-core and vh-pt depend on routee-compass-core with features = [\"verif-models\"]; vh-app uses no feature (only the cfg(kani) constructors)",
     "baseline_off_cmd": "cd /repo/rust && cargo test --workspace --no-fail-fast --offline",
-    "source_commits": [],
+    "source_commits": ["6e7b5e1", "fe4aab9", "0a84aa3", "1d6f7b2", "57a839d (reverted by 571d484)"],
     "add_only": True,
 }
 NOTES = ("Every check is decided by CBMC (via Kani) over the compiled repository code; exit 2 = inconclusive "
@@ -85,6 +85,48 @@ CHECKS["C04"] = dict(
     note="Road-class, turn-restriction and per-edge restriction table lookups (std hash containers in the app crate), the edge-cut wrapper and the search loop are not covered.",
     technique=TECH,
 )
+CHECKS["C01"] = dict(
+    text=("Two kernels of the property are decided: for ANY edge and both search directions the vertex a tree entry is keyed by is the far end and the recorded parent "
+          "the near end of the recorded edge; and for an ARBITRARY edge table with an ARBITRARY consistent partial tree (cycles, gaps allowed) over 3-4 vertices the "
+          "backtrack returns exactly the contiguous, repeat-free origin-to-destination walk obtained by following parents, or an error - never a malformed route."),
+    design_ref="DESIGN.md section 4, C01",
+    note=("The core of the property - that the search loop only inserts consistent branches and never closes a parent cycle - is NOT decided (run_a_star could not be encoded); "
+          "edge-oriented wrappers and ksp route concatenation are not covered. Trusted: hook H1 table model for the tree."),
+    technique=TECH,
+)
+CHECKS["C03"] = dict(
+    text=("Kernels: the turn angle of two edges is the heading difference wrapped into -180..180 (all headings 0..360), classification is total on wrapped angles and follows the "
+          "documented sectors (all i16), the delay charged is the table entry of the turn actually taken, in the table's unit; and the state model's unit-aware "
+          "add / set / get (s->min, km->mi, kWh->gal) accumulate previous + converted value within 0.2 percent."),
+    design_ref="DESIGN.md section 4, C03",
+    note=("NOT decided: time = length / table speed (speed traversal model), forward/reverse_traversal composition, route-level accumulation by the search loop, output units, summary. "
+          "State-model harnesses use one-feature models with container lookups stubbed and a constant previous accumulator content."),
+    technique=TECH,
+)
+CHECKS["C08"] = dict(
+    text=("Kernels: state of charge stays within 0..100 for every capacity and energy in the stated ranges and equals 100*(start-used)/capacity within 0.1 percent when not clamped "
+          "(capacity pinned per instance); the prediction record returns rate x adjustment x distance within 0.2 percent in the rate's own energy unit with the sign of the rate "
+          "(regeneration stays negative), for a prediction model returning an arbitrary rate."),
+    design_ref="DESIGN.md section 4, C08",
+    note="NOT decided: BEV / ICE / PHEV state updates (by-name state model access, no verdict), PHEV fuel switching, starting charge rejection, cache, additivity along a route.",
+    technique=TECH,
+)
+CHECKS["C14"] = dict(
+    text=("Kernels: the cell lookup returns a cell containing the target for every strictly increasing axis of length 2-4; 1-D strategies return the table value at grid points and a "
+          "neighbour between them; points outside the grid or of the wrong dimension are rejected without panic; the speed/grade model's predict never fails for ANY finite speed and "
+          "grade (inputs are snapped to the grid boundary)."),
+    design_ref="DESIGN.md section 4, C14",
+    note="NOT decided: the blend arithmetic (value within corner range, exactness at 2-D/3-D grid points and for multilinear data, continuity), N-D, bundled models. Trusted: hook H2 constructor.",
+    technique=TECH,
+)
+CHECKS["C15"] = dict(
+    text=("From the container inwards: every id lookup of a Graph (edge, vertex, end points, triplet, incident vertex) returns the listed row or an error, never a panic, for every id "
+          "in and out of range; and the adjacency container <EdgeId, VertexId> is an insertion-ordered map at every degree incl. the representation switch at the fifth edge "
+          "(C11's inductive step harnesses in this instantiation)."),
+    design_ref="DESIGN.md section 4, C15",
+    note="The loader proper (CSV / gzip parsing, counts, side tables) is behind File::open and is NOT covered; Graph::out_edges / in_edges over a filled container did not return (documented attempt).",
+    technique=TECH,
+)
 NOT_APPLICABLE = {
     "C01": "not built yet (planned: backtrack / orientation kernels, DESIGN section 4)",
     "C02": "optimality quantifies over all paths of all graphs and the haversine estimate; the search loop could not be encoded (four encodings, no verdict in 19-25 min) and trigonometric builtins are over-approximated by CBMC",
@@ -102,7 +144,7 @@ NOT_APPLICABLE = {
     "C15": "not built yet (planned kernels, DESIGN section 4)",
     "C16": "nearest-neighbour search is rstar's recursive heap structure and the tolerance uses haversine (sin/cos/asin/sqrt), which CBMC over-approximates; nothing sound can be claimed",
     "C17": "not built yet (planned kernels, DESIGN section 4)",
-    "C18": "not built yet (single attempt planned, DESIGN section 4)",
+    "C18": "not attempted beyond the design probe class: recursive DFS over std HashSet<VertexId> with symbolic adjacency; the sibling kernels of the same class (backtrack on 3-4 vertices) already need 10-20 minutes and the search loop did not return at all; shrinking to concrete graphs would be enumeration, not solver-based checking",
     "C19": "file handles, Mutex, worker threads, serde_json/CSV formatting: outside what Kani can encode",
-    "C20": "not built yet (attempt planned, DESIGN section 4)",
+    "C20": "attempted and dropped: geometry concatenation (create_route_linestring) with concrete edge-id sequences and symbolic coordinates returned for 1 of 5 instances within 600-1200 s (Vec<Coord>/iterator machinery of geo); everything else in the property is JSON / GeoJSON / WKT / WKB / uuid rendering, which Kani cannot execute (serde_json objects are IndexMap -> hashbrown)",
 }
